@@ -589,6 +589,15 @@ func c17Grammar(c *sim.Case) {
 		d["chains"] = chains
 		c.Class("mode:override-pair")
 	}
+	if chs, ok := d["chains"].([]any); ok && len(chs) > 1 && sim.Weighted(c, "equal-chain-names", 5, 1) == 1 {
+		// chain names are labels: nothing requires them to differ, and nothing may depend on it
+		for _, ch := range chs {
+			if m, ok := ch.(doc); ok {
+				m["name"] = "main"
+			}
+		}
+		c.Class("chains:equal-names")
+	}
 	c17Odd, c17NoOmit = -1, false
 	camelCase := sim.Weighted(c, "camel", 4, 1) == 1
 	b, _ := json.Marshal(renderDoc(d, camelCase))
